@@ -351,3 +351,5 @@ func Par2(label string, f, g func()) {
 }
 
 func Call(f func()) { f() }
+
+func StrEqualFold(a, b string) bool { return strings.EqualFold(a, b) }
